@@ -68,6 +68,12 @@ def generate(tier, rng):
                 real.append(dict(kind="normal", mean=dict(dims=[l], values=[7 + 3 * i for i in range(m)]), std=dict(dims=[l, "t"], values=[2 + ((i * 7) % 3) for i in range(m * n)])))
                 real.append(dict(kind="foldnorm", mean=dict(dims=[l, "t"], values=[3 + ((i * 5) % 11) for i in range(m * n)]), std=dict(dims=["t", l], values=[2 + ((i * 3) % 4) for i in range(m * n)])))
                 real.append(dict(kind="weibull", shape=dict(dims=["t", l], values=[1.1 + 0.3 * ((i * 3) % 5) for i in range(m * n)]), scale=dict(dims=[l], values=[6 + 4 * i for i in range(m)])))
+            if not extra or tier == "thorough":
+                # every quadrature order with a curved survival function (a step function hides a slightly misplaced node)
+                for lt in real[:4]:
+                    for npts in range(2, 11):
+                        k += 1
+                        cases.append(dict(stream="tolerance", coq=False, grid=grid, gname=gname, extra=extra, lifetime=dict(lt, n_pts=npts)))
             for lt in real:
                 for npts in ((1, 2, 6) if tier == "thorough" else (1, 3)):
                     k += 1
